@@ -66,6 +66,16 @@ CLAIMED["C15"] = (
     "Replication compared at 1e-8; means-in-box inflated by 1e-6*max|X| for the stated 1e-10 regulariser; predict_proba row sums only asserted for in-box queries.",
     "DESIGN.md §2 C15",
 )
+CLAIMED["C07"] = (
+    "exploration",
+    "generated sampler runs over a verified t-wise covering array of the option lattice, instrumented exact-arithmetic target, invariant checked after every pipeline step and on every returned array; failing rows shrunk factor-by-factor",
+    "Every row of a pairwise (quick) / 3-wise (thorough) covering array of kernel x resampler x clustering x evaluation mode x boundary types x "
+    "metric x zero-likelihood region x dimension is executed as a full run with a case seed; after resample, after mutate, at commit, on "
+    "parallel_mcmc's return value and on everything sample()/posterior(16 option combinations)/results() return, each particle must satisfy "
+    "x == pt(u), logl == L(x), blob == b(x) exactly and u in [0,1]^d. Exactness is possible because the target is instrumented.",
+    "Observation points are wrapped at run time (no source hooks); a refactor that removes them yields exit 2, not a violation.",
+    "DESIGN.md §2 C07",
+)
 
 ALL = [f"C{i:02d}" for i in range(1, 21)]
 
